@@ -12,6 +12,12 @@ use std::collections::BTreeSet;
 
 pub const GAPS: [&str; 10] = [" ", "\n", "\r\n", "\t", "\u{2003}", "  ", "// c\n", "//é€\r\n", "// a\rb $ {\n", ""];
 
+/// Every character with the Unicode White_Space property (the statement says "any Unicode whitespace"):
+/// used as single-gap deviations.
+pub fn all_whitespace() -> Vec<String> {
+    (0u32..0x11_0000).filter_map(char::from_u32).filter(|c| c.is_whitespace()).map(|c| c.to_string()).collect()
+}
+
 #[derive(Clone, Debug, PartialEq, Eq, PartialOrd, Ord)]
 enum Desc {
     Start(usize),
@@ -209,6 +215,16 @@ pub fn explore_source(name: &str, original: &str, pairs: bool, acc: &mut Acc) {
                 continue;
             }
             try_layout(layout(&texts, &|k| if k == i { *g } else if k == 0 || k == n { "" } else { " " }, ""), "1-gap deviations", acc);
+        }
+    }
+    // every Unicode whitespace character, one gap at a time (all gaps for small sources, a rotating subset of gaps for large ones)
+    let ws: Vec<&'static str> = all_whitespace().into_iter().map(|s| &*Box::leak(s.into_boxed_str())).collect();
+    for i in 0..=n {
+        for (k, g) in ws.iter().enumerate() {
+            if n > 80 && (i + k) % 7 != 0 {
+                continue;
+            }
+            try_layout(layout(&texts, &|j| if j == i { *g } else if j == 0 || j == n { "" } else { " " }, ""), "1-gap deviations with each Unicode whitespace character", acc);
         }
     }
     if (pairs && n <= 60) || n <= 36 {
